@@ -405,7 +405,7 @@ func genArgFault(r *Rng, d *DeclSpec, p *Plan, twinCalls []Call) (f ArgFault, ok
 		k := r.Pick(kinds)
 		f.Callee = &CalleeFault{Kind: k, Nth: r.Intn(counts[k]), ID: 100 + r.Intn(900)}
 		if k == "execute" || k == "handler" {
-			f.Callee.Form = r.Pick([]string{"", "", "flags:help", "flags:required", "flags:unknown", "wrap:help", "wrap:marshal", "flags:command required", "flags:help-empty", "typed-nil", "errtype:help", "errtype:required", "typed-nil-flags"})
+			f.Callee.Form = r.Pick([]string{"", "", "flags:help", "flags:required", "flags:unknown", "wrap:help", "wrap:marshal", "flags:command required", "flags:help-empty", "typed-nil", "errtype:help", "errtype:required", "typed-nil-flags", "uncomparable"})
 		}
 		if k == "validate" {
 			f.Callee.Form = r.Pick([]string{"", "", "typed-nil", "typed-nil-flags", "flags:unknown"})
